@@ -227,41 +227,43 @@ def _shape(x: Term) -> str:
 
 
 def r11_3(model: Model, rep: Report) -> None:
+    from ..refcmp import compare_with_reference, load_reference
+    from ..terms import mapterm
+    from . import c10
+
     canon = model.func(f"{CAN}.Canonicalizer.canonicalize")
     canon_cls = model.cls(f"{CAN}.Canonicalizer")
-    prims = set(DSL_PRIMS) | {f"{CAN}._flatten_product", f"{CAN}._flatten_expressions"}
-    flatten_fns = {q for q in (f"{CAN}._flatten_product", f"{CAN}._flatten_expressions") if model.has_func(q)}
-    # Product branch
-    ev = Evaluator(model, primitives=prims | flatten_fns, prim_methods={"_new", "__truediv__", "__mul__"})
-    slf = typed(ev, "self", ("cls", canon_cls.qname))
-    e = typed(ev, "expression", ("cls", f"{DSL}.Product"))
-    ev.exact_terms.add(e)
-    rets = return_paths(ev.run(canon, {"expression": e}, self_term=slf))
-    cons = construct(canon, "product-flat")
-    problems = []
-    for r in rets:
-        v = r.value
-        if not (v[0] == "call" and str(v[1]).endswith("Product.safe")):
-            problems.append("the product branch does not end in Product.safe (which sorts the factors)")
-            continue
-        x = dict(v[3]).get("expressions")
-        # peel flatten calls applied to the canonicalised factors
-        outer_flat = 0
-        while x[0] == "call" and x[1] in flatten_fns:
-            x = (list(x[2]) + [t for _, t in x[3]])[0]
-            outer_flat += 1
-        if not (x[0] == "comp" and x[2][0] == "recurse"):
-            problems.append("factors are not canonicalised one by one: " + short(show(x), 120))
-            continue
-        if outer_flat == 0 and not _product_safe_flattens(model):
-            problems.append("canonicalised factors are handed to Product.safe without flattening: a factor that canonicalises to a Product "
-                            "(e.g. a Fraction whose denominator becomes One) stays nested, and a second pass changes the result")
-        it = x[3][0][1]
-        if not (it[0] == "call" and it[1] in flatten_fns):
-            problems.append("nested products of the input are not flattened before canonicalising")
-    if not rets:
-        problems.append("no return path for Product")
-    (rep.refuted if problems else rep.proven)("R11.3", cons, "; ".join(problems), loc(canon))
+    if "yvref.c11" not in model.modules:
+        load_reference(model, "yvref.c11", "c11_ref.py")
+    scratch = Report(rep.property_id, rep.tier)
+    helpers = c10.find_flatteners(model, scratch)  # verified re-yielders of factors (whatever they are called); their own obligations are C10's
+
+    def post(v):
+        def f(s_):
+            if s_[0] in ("call", "recurse") and isinstance(s_[1], str):
+                if s_[1] in c10.FLATTENERS:
+                    arg = (list(s_[2]) + [x for _, x in s_[3]])[0]
+                    return ("flat", arg if c10.FLATTENERS[s_[1]] == "seq" else ("attr", arg, "expressions"))
+                if s_[1] == "yvref.c11.flat":
+                    return ("flat", (list(s_[2]) + [x for _, x in s_[3]])[0])
+            return None
+        return mapterm(v, f)
+
+    CC = ("cls", canon_cls.qname)
+    mk = lambda: Evaluator(model, primitives=set(DSL_PRIMS) | set(helpers) | {"yvref.c11.flat"}, prim_methods={"_new", "__truediv__", "__mul__"})  # noqa: E731
+    _, verdict, detail, sample = compare_with_reference(model, canon.qname, "yvref.c11.canonical_form", {"self": CC, "expression": ("cls", EXPR)}, mk, SetAlg(),
+                                                        post=post, impl_self_type=CC)
+    words = ("probabilities: children/parents each sorted by the position of the variable's name in the ordering, rebuilt through _new; sums: canonical "
+             "summand, same ranges, re-simplified; products: nested products expanded before AND after canonicalising the factors, then Product.safe; "
+             "fractions: x/1 = x and a/a = 1 on the CANONICAL operands; One/Zero unchanged; anything else refused")
+    for role in ("product-flat", "fraction-shortcuts", "sum-simplified"):
+        cons = construct(canon, role)
+        if verdict == "PROVEN":
+            rep.proven("R11.3", cons, loc=loc(canon), sample=sample)
+        elif verdict == "REFUTED":
+            rep.refuted("R11.3", cons, f"deviates from the definition ({words}): {short(detail, 800)}", loc(canon), sample=sample)
+        else:
+            rep.unknown("R11.3", cons, detail, loc(canon))
     # Product.safe sorts
     f = model.func(f"{DSL}.Product.safe")
     ev = Evaluator(model)
@@ -270,51 +272,6 @@ def r11_3(model: Model, rep: Report) -> None:
     prods = [p.value for p in paths if p.value[0] == "rec" and p.value[1].endswith(".Product")]
     ok = bool(prods) and all(any(s[0] == "call" and s[1] == "sorted" for s in subterms(dict(v[2]).get("expressions"))) for v in prods)
     (rep.proven if ok else rep.refuted)("R11.3", construct(f, "sorted"), "" if ok else "Product.safe builds a Product without sorting its factors", loc(f))
-    # Fraction branch: shortcuts on canonical operands
-    ev = Evaluator(model, primitives=prims, prim_methods={"_new", "__truediv__", "__mul__"})
-    slf = typed(ev, "self", ("cls", canon_cls.qname))
-    e = typed(ev, "expression", ("cls", f"{DSL}.Fraction"))
-    ev.exact_terms.add(e)
-    rets = return_paths(ev.run(canon, {"expression": e}, self_term=slf))
-    cons = construct(canon, "fraction-shortcuts")
-    problems = []
-    cn = ("recurse", canon.qname, (("attr", e, "numerator"),), ())
-    cd = ("recurse", canon.qname, (("attr", e, "denominator"),), ())
-    saw_eq = saw_one = False
-    for r in rets:
-        for c in r.conds:
-            cc = c[1] if c[0] == "not" else c
-            if cc[0] in ("eq", "ne"):
-                ops = {cc[1], cc[2]}
-                if ops == {cn, cd}:
-                    saw_eq = True
-                elif any(mentions(o, e) for o in ops):
-                    raw = [o for o in ops if o[0] == "attr"]
-                    problems.append("the `numerator == denominator` shortcut compares " + " with ".join(short(show(o), 60) for o in ops)
-                                    + ": an operand is not canonicalised, so an equal fraction presented differently does not collapse to One (presentation-dependent, not idempotent)")
-            if cc[0] == "isinstance" and "One" in str(cc[2]):
-                if cc[1] == cd:
-                    saw_one = True
-                elif mentions(cc[1], e):
-                    problems.append("the One-denominator shortcut tests a non-canonical operand")
-        from ..terms import mapterm
-        v = mapterm(r.value, lambda s: ("canonical",) if s[0] == "recurse" else None)
-        for s in subterms(v):
-            if s[0] == "attr" and s[1] == e:
-                problems.append(f"a result is built from the raw `{s[2]}` instead of its canonical form")
-    if not saw_eq:
-        problems.append("no a/a = 1 shortcut on canonical operands")
-    if not saw_one:
-        problems.append("no x/1 = x shortcut on the canonical denominator")
-    (rep.refuted if problems else rep.proven)("R11.3", cons, "; ".join(sorted(set(problems))), loc(canon))
-    # Sum branch re-simplifies
-    ev = Evaluator(model, primitives=prims)
-    slf = typed(ev, "self", ("cls", canon_cls.qname))
-    e = typed(ev, "expression", ("cls", f"{DSL}.Sum"))
-    ev.exact_terms.add(e)
-    rets = return_paths(ev.run(canon, {"expression": e}, self_term=slf))
-    ok = bool(rets) and all(r.value[0] == "call" and dict(r.value[3]).get("simplify") == const(True) for r in rets if r.value[0] == "call")
-    (rep.proven if ok else rep.refuted)("R11.3", construct(canon, "sum-simplified"), "" if ok else "the Sum branch does not simplify the rebuilt sum", loc(canon))
 
 
 def _product_safe_flattens(model: Model) -> bool:
@@ -364,18 +321,27 @@ def r11_4(model: Model, rep: Report, classes) -> None:
 
 
 def r11_5(model: Model, rep: Report) -> None:
+    from ..terms import alpha_normalise
+
     canon_cls = model.cls(f"{CAN}.Canonicalizer")
-    f = canon_cls.find_method("_canonicalize_probability")
+    f = canon_cls.find_method("canonicalize")
     ev = Evaluator(model, prim_methods={"_new"})
     slf = typed(ev, "self", ("cls", canon_cls.qname))
     e = typed(ev, "expression", ("cls", f"{DSL}.Probability"))
+    ev.exact_terms.add(e)
     rets = return_paths(ev.run(f, {"expression": e}, self_term=slf))
     problems = []
     keys = set()
+    n_sorted = 0
     for r in rets:
         for s in subterms(r.value):
             if s[0] == "call" and s[1] == "sorted":
-                keys.add(dict(s[3]).get("key"))
+                n_sorted += 1
+                k_ = dict(s[3]).get("key")
+                keys.add(alpha_normalise(k_) if k_ is not None else None)
+    if n_sorted == 0:
+        rep.unknown("R11.5", construct(f, "one-key"), "the probability branch does not order children / parents with sorted(); not read", loc(f))
+        return
     if len(keys) != 1 or None in keys:
         problems.append(f"children and parents are not sorted with one key function: {[show(k) if k else None for k in keys]}")
     (rep.refuted if problems else rep.proven)("R11.5", construct(f, "one-key"), "; ".join(problems), loc(f))
